@@ -1,4 +1,4 @@
-package main
+package kit
 
 // vkit: injected components for driving the real verifier: an instrumented
 // trust store, revocation validators of both interfaces, policy builders and
@@ -105,8 +105,8 @@ func (s *RevScript) Client() revocation.Revocation   { return mockRevClient{s} }
 
 // ---- policies ----
 
-const testScope = "reg.example/repo"
-const testRef = "reg.example/repo@sha256:9834876dcfb05cb167a5c24953eba58c4ac89b1adf57f28f2f9d09af107ee8f0"
+const TestScope = "reg.example/repo"
+const TestRef = "reg.example/repo@sha256:9834876dcfb05cb167a5c24953eba58c4ac89b1adf57f28f2f9d09af107ee8f0"
 
 // OCIPolicy builds a one-statement OCI policy document.
 func OCIPolicy(level string, override map[trustpolicy.ValidationType]trustpolicy.ValidationAction, stores, identities []string, verifyTimestamp trustpolicy.TimestampOption) *trustpolicy.OCIDocument {
@@ -114,7 +114,7 @@ func OCIPolicy(level string, override map[trustpolicy.ValidationType]trustpolicy
 		Version: "1.0",
 		TrustPolicies: []trustpolicy.OCITrustPolicy{{
 			Name:           "p",
-			RegistryScopes: []string{testScope},
+			RegistryScopes: []string{TestScope},
 			SignatureVerification: trustpolicy.SignatureVerification{
 				VerificationLevel: level, Override: override, VerifyTimestamp: verifyTimestamp,
 			},
@@ -129,7 +129,7 @@ func OCIPolicy(level string, override map[trustpolicy.ValidationType]trustpolicy
 var quotedRe = regexp.MustCompile(`"(?:[^"\\]|\\.)*"`)
 
 // firstQuoted returns the first Go-quoted string of msg, unquoted.
-func firstQuoted(msg string) (string, bool) {
+func FirstQuoted(msg string) (string, bool) {
 	q := quotedRe.FindString(msg)
 	if q == "" {
 		return "", false
@@ -188,7 +188,7 @@ func ErrClass(err error) string {
 	return "other"
 }
 
-func subjects(chain []*x509.Certificate) []string {
+func Subjects(chain []*x509.Certificate) []string {
 	out := make([]string, len(chain))
 	for i, c := range chain {
 		out[i] = c.Subject.String()
@@ -196,7 +196,7 @@ func subjects(chain []*x509.Certificate) []string {
 	return out
 }
 
-func short(s string, n int) string {
+func Short(s string, n int) string {
 	if len(s) > n {
 		return s[:n] + "..."
 	}
